@@ -139,6 +139,11 @@ package graphsync
 //@       all(dtChannel.onRequesterCancelled, $0 == ret(Transport.getDTChannel, 0)) && only(requestIDToChannelIDMap.load, Transport.getDTChannel, dtChannel.onRequesterCancelled)
 
 //@ func (*graphsync.Transport).processExtension {C05,C16}
+//@   ensures [results] {C16,C04} (calls(GetTransferData) == 1 && ret(GetTransferData, 1) != nil ==> result1 == ret(GetTransferData, 1) && result0 == nil) &&
+//@       (calls(EventsHandler.OnRequestReceived) == 1 ==> result0 == ret(EventsHandler.OnRequestReceived, 0) && result1 == ret(EventsHandler.OnRequestReceived, 1)) &&
+//@       (calls(EventsHandler.OnResponseReceived) == 1 ==> result0 == nil && result1 == ret(EventsHandler.OnResponseReceived, 0)) &&
+//@       (calls(GetTransferData) == 1 && ret(GetTransferData, 1) == nil && ret(GetTransferData, 0) != nil && never(EventsHandler.OnRequestReceived) && never(EventsHandler.OnResponseReceived) ==> result1 != nil)
+//@       -- decode errors and role mismatches are reported; the handler's answer is passed through unchanged
 //@   acquires {C20} channels.progressCache.lk, graphsync.Transport.dtChannelsLk, graphsync.dtChannel.lk, graphsync.dtChannel.optionsLk, graphsync.requestIDToChannelIDMap.lk, registry.Registry.registryLk, transportoptions.TransportOptions.optionsLk
 //@   requires gsMsg != nil && t.events != nil
 //@   requires [known-extensions] forall i int :: 0 <= i && i < len(exts) ==> (exts[i] == extension.ExtensionIncomingRequest1_1 ||
@@ -192,6 +197,7 @@ package graphsync
 //@   modifies t.dtChannels
 //@   ensures [tracked] result != nil
 //@ func (*graphsync.Transport).getDTChannel {C16,C20}
+//@   ensures [handler-required] {C16} t.events == nil ==> err == datatransfer.ErrHandlerNotSet && result0 == nil
 //@   acquires {C20} Transport.dtChannelsLk
 //@   reads
 //@   ensures [found-or-error] (err == nil) == (result0 != nil)
